@@ -118,7 +118,7 @@ var (
 func c19GenBody(t *rapid.T) vfB {
 	if rapid.IntRange(0, 24).Draw(t, "big") == 0 {
 		// several KB that do not compress (a thumbnail, say): pushes later entries far into the file
-		n := rapid.SampledFrom([]int{3000, 4200, 5000, 9000, 20000}).Draw(t, "bigsize")
+		n := rapid.SampledFrom([]int{3000, 4200, 5000, 9000, 20000, 70000, 1200000}).Draw(t, "bigsize")
 		b := make([]byte, n)
 		st := uint64(rapid.IntRange(1, 1<<30).Draw(t, "bigseed"))
 		for i := range b {
